@@ -422,6 +422,8 @@ impl Pager {
             let evicted_id = evicted.page_number();
 
             if evicted.is_dirty() {
+                // Write-ahead rule: the log records describing this page must be on disk before it.
+                self.wal.flush()?;
                 let page_size = self.page_size();
                 evicted.with_bytes_mut(|bytes| self.write_block(evicted_id, &bytes, page_size))?;
             };
